@@ -5,7 +5,6 @@ package main
 
 import (
 	"fmt"
-	"math/rand"
 	"strconv"
 
 	"verif/harness/internal/trace"
@@ -18,8 +17,8 @@ func sqlC14(args []string) error {
 		return err
 	}
 	nscen, _ := strconv.Atoi(args[1])
-	rng := rand.New(rand.NewSource(envSeed()))
-	for sc := 0; sc < nscen; sc++ {
+	for sc := envStart(); sc < nscen; sc++ {
+		rng := scenarioRng(sc)
 		s, err := newRun(tw, ctxName("C14"), 256) // 64 frames
 		if err != nil {
 			return err
